@@ -45,11 +45,14 @@ class Run(object):
         self.pty = None
         self.sock = None
         self.calls = []          # primitive expect-family calls (see CallRec)
+        self.raw_calls = set()      # ops in which the harness handed uncompiled strings to expect()
         self.ops = []            # per driver op: dict(outcome...)
         self.notes = []
 
     # ------------------------------------------------------------ transport
     def make_child(self, cls_kw=None):
+        if self.scn.get('many_fds') and not self.scn.get('use_poll'):
+            raise HarnessError('many_fds without use_poll: select() cannot serve such an application at all')
         scn = self.scn
         tr = scn.get('transport', 'fd')
         kw = dict(timeout=scn.get('timeout', 30), maxread=scn.get('maxread', 2000),
@@ -274,6 +277,7 @@ class Run(object):
                 from pexpect.expect import searcher_re
                 return child.expect_loop(searcher_re(pl), timeout=to, searchwindowsize=sws)
             if op.get('raw'):
+                self.raw_calls.add(self.w.op_index)
                 # uncompiled strings: pexpect compiles them itself (DOTALL, + IGNORECASE when ignorecase is set)
                 pl = [(EOF if p['t'] == 'EOF' else TIMEOUT if p['t'] == 'TIMEOUT' else self.conv(p['p'])) for p in op['pats']]
                 prev = getattr(self, '_prev_raw_list', None)
